@@ -106,7 +106,14 @@ func (j *cacheJanitor[MetadataT]) cleanExpiredEntries() {
 	keysToRemove := make([]CacheKey, 0)
 
 	for key, meta := range j.cacheFns.cacheIterator {
+		// The metadata is shared with Get/UpdateMetadata, which write it under the key's lock.
+		// Never block here (the janitor only ever tries locks); an entry that is in use is looked at in the next cycle.
+		lock := j.cacheFns.getLock(key)
+		if !lock.TryRLock() {
+			continue
+		}
 		expired := meta.Expires.Before(time.Now())
+		lock.RUnlock()
 
 		if !expired {
 			continue
@@ -165,8 +172,15 @@ func (j *cacheJanitor[MetadataT]) evict(maxCacheBytes int64) {
 	now := time.Now()
 
 	for key, meta := range j.cacheFns.cacheIterator {
+		// Read the shared metadata under the key's lock, but never block: evict can run inside a store
+		// that holds its own key's lock. Entries that are in use right now are not candidates.
+		lock := j.cacheFns.getLock(key)
+		if !lock.TryRLock() {
+			continue
+		}
 		timeSinceAccess := now.Sub(meta.LastAccess).Milliseconds()
 		sizeWeight := meta.Size / bytesize.UnitM
+		lock.RUnlock()
 
 		// Calculate eviction priority (highest = evict first)
 		// Factors: age since last access + file size weight
